@@ -23,7 +23,7 @@ RULE = ("scenario families: A = hive dataset {unpartitioned, partitioned on 1 co
         "column} x 2 new row groups; Z = append to a dataset of 0 row groups (unpartitioned) x 1 / 2 / 4 new row groups; "
         "S = ParquetFile.write_row_groups through an fsspec-style environment (open_with = the bound open of a local "
         "filesystem subclass, whose rename / mv / rm are fault points as well) x options {none, sort_key, sort_key + "
-        "sort_pnames} x {unpartitioned, 1 partition column} x 1 / 2 new row groups on 3 existing ones; H = the append under faults is the second write_row_groups of one handle whose first one succeeded x {unpartitioned, 1, 2 partition columns}; every scenario is "
+        "sort_pnames} x {unpartitioned, 1 partition column} x 1 / 2 new row groups on 3 existing ones; H = the append under faults is the second write_row_groups of one handle whose first one succeeded x {unpartitioned, 1, 2 partition columns}; I = the new data given to write_row_groups as an iterable of frames x {unpartitioned, 1 partition column}; every scenario is "
         "split into cells by k modulo the number of new row groups; fault points = every "
         "write-side call (mkdirs, open for writing, write, close, rename) before the first call that opens _metadata for "
         "writing, and that opening call itself (it fails before it truncates), each with variants {OSError, torn write (first half written, then OSError), crash (process "
@@ -78,6 +78,10 @@ def points(tier):
             for newrgs in ((1, 2, 4) if thorough else (1, 2)):
                 for opt in ("none", "sort_key", "sort_pnames"):
                     add(newrgs, parts=parts, existing=existing, newrgs=newrgs, second=False, opt=opt)
+    # family I: the new data handed to write_row_groups as an iterable of frames (one row group each)
+    for parts in (0, 1):
+        for newrgs in ((2, 4) if thorough else (2,)):
+            add(newrgs, parts=parts, existing=3 if thorough else 1, newrgs=newrgs, second=False, opt="iterable")
     # family H: the append under faults is the SECOND write_row_groups of one ParquetFile handle (the first one,
     # through the same handle, succeeded): whatever the handle remembers from its first append is in play
     for parts in (0, 1, 2):
@@ -323,13 +327,16 @@ def run(p):
     rgo = list(range(0, 2 * newrgs, 2))
     # number of part files the append has to create
     nfiles = sum((len(newdf.iloc[a:a + 2].groupby(pcols if len(pcols) > 1 else pcols[0])) if pcols else 1) for a in rgo)
-    make_env = fs_env if opt and opt != "handle2" else Env
+    make_env = fs_env if opt and opt not in ("handle2", "iterable") else Env
     wrg_opts = {"sort_key": {"sort_key": _newest_first},
                 "sort_pnames": {"sort_key": _newest_first, "sort_pnames": True}}.get(opt, {})
 
     def do_append(path, env):
         ow, mk = env.callbacks()
-        if opt == "handle2":
+        if opt == "iterable":
+            pf = fastparquet.ParquetFile(path, open_with=ow)
+            pf.write_row_groups((newdf.iloc[a:a + 2] for a in rgo), open_with=ow, mkdirs=mk)
+        elif opt == "handle2":
             pf = fastparquet.ParquetFile(path, open_with=ow)
             pf.write_row_groups(frame(500, 4, parts), [0, 2])      # plain callbacks: neither counted nor failed
             if snapshot(path) != old_files:
